@@ -468,3 +468,10 @@ template <class T, size_t M, size_t N, size_t P> void op_noalias3(Ctx &c) {
 }
 } // namespace memsim
 
+namespace memsim {
+template <class T, size_t... D> void op_own_cx(Ctx &c) {
+    auto &a = c.own<Tensor<T, D...>>(0, false); auto &b = c.own<Tensor<T, D...>>(1, false); auto &o = c.own<Tensor<T, D...>>(2, true);
+    c.run([&] { o = a + b * a - b; o += a; o -= b; o *= a; o /= b; o += a * b; });
+}
+} // namespace memsim
+
